@@ -23,7 +23,7 @@ RULE = ("cells = kernel basis {RBF, Matern-ARD, Scale(RBF), RBF+Matern on differ
 ASSUMPTIONS = ["the eager dense matrix is the reference for the lazy one (C05 decides the values themselves)",
                "index tensors in one matrix dimension at a time together with slices/ints in the other; paired row/col tensors are also covered"]
 
-BASIS = ["rbf", "matern_ard", "scale_rbf", "sum_ad", "prod", "periodic", "multitask", "rbfgrad", "rq", "rbfgrad_ard"]
+BASIS = ["rbf", "matern_ard", "scale_rbf", "sum_ad", "prod", "periodic", "multitask", "rbfgrad", "rq", "rbfgrad_ard", "linear_ard"]
 TRIPLES = [((), (), ()), ((2,), (2,), (2,)), ((), (2,), (2,)), ((2,), (), ()), ((), (2,), ()), ((2,), (1,), (2,)), ((2, 1), (1, 3), (2, 3)),
            ((), (1, 3), (2, 1)), ((3,), (2, 3), (3,)), ((2,), (2,), ())]
 D = 3
@@ -49,6 +49,8 @@ def make_kernel(name, kb, ad):
         return K.PeriodicKernel(**kw)
     if name == "rq":
         return K.RQKernel(**kw)
+    if name == "linear_ard":
+        return K.LinearKernel(ard_num_dims=nd, **kw)
     if name == "multitask":
         return K.MultitaskKernel(K.RBFKernel(**kw), num_tasks=2, rank=1, batch_shape=bs)
     if name == "rbfgrad":
@@ -69,12 +71,17 @@ def build(cell, seed):
     n1, n2 = (2, 3) if cell.get("orient") == "wide" else (3, 2)
     x1 = util.randn(g, *cell["x1b"], n1, D)
     x2 = util.randn(g, *cell["x2b"], n2, D)
+    if cell.get("orient") == "square":
+        x1 = util.randn(g, *cell["x1b"], 4, D)
+        x2 = x1  # the SAME tensor on both sides (the joint train/test matrix of a GP is K(X, X) indexed into blocks)
     return k, x1, x2
 
 
 def cells(tier, seed):
     out = []
-    for kern, (kb, x1b, x2b), ad in itertools.product(BASIS, TRIPLES, [None, [0], [0, 2]]):
+    for kern, (kb, x1b, x2b), ad in itertools.product(BASIS, TRIPLES, [None, [0], [0, 2], [2, 0, 1]]):
+        if ad == [2, 0, 1] and (kern not in ("matern_ard", "linear_ard", "rbfgrad_ard", "scale_rbf") or (tier == "quick" and (kb or x1b or x2b))):
+            continue  # a permutation of all columns: only kernels with per-column parameters can tell (scale_rbf: inherited active_dims)
         if kern == "sum_ad" and ad is not None:
             continue
         try:
@@ -99,6 +106,9 @@ def cells(tier, seed):
         if len(B) == 0 and (tier == "thorough" or ad is None):
             for ri in range(len(alpha(2 * per_point, tier))):
                 out.append(dict(base, what="index", row=ri, tier=tier, orient="wide"))
+            # K(X, X) with the same tensor on both sides, four points: row and column selections that start at the same element but differ
+            for ri in range(len(alpha(4 * per_point, tier))):
+                out.append(dict(base, what="index", row=ri, tier=tier, orient="square"))
     return out
 
 
@@ -197,7 +207,8 @@ def relations(cell, k, x1, x2, dense, fails, feats, seed):
         if cell["ad"] is not None and kern != "sum_ad":
             with fails.guard("active_dims"):
                 torch.manual_seed(util.seed_for(seed, "c06init"))
-                k0 = make_kernel(kern, tuple(cell["kb"]), None) if kern not in ("matern_ard", "rbfgrad", "rbfgrad_ard") else None
+                same_width = len(cell["ad"]) == D   # ARD kernels: comparable only when the restricted kernel has as many columns
+                k0 = make_kernel(kern, tuple(cell["kb"]), None) if (kern not in ("matern_ard", "rbfgrad", "rbfgrad_ard", "linear_ard") or same_width) else None
                 if k0 is None:
                     raise util.Skip()
                 k0.load_state_dict({kk: v for kk, v in k.state_dict().items() if "active_dims" not in kk}, strict=False)
